@@ -62,7 +62,7 @@ for p in props:
     print("   check %s: %s" % (p, line[51:330]))
 meta["checks"] = res
 if valid:
-    d = os.path.join(VERIF, "seeded", "%s-%s" % (prop, k))
+    d = os.path.join(VERIF, "seeded", "%s-%s" % (prop, os.environ.get("SEED_AS", k)))
     os.makedirs(d, exist_ok=True)
     shutil.copy(patch, os.path.join(d, "patch.diff"))
     shutil.copy(demo, os.path.join(d, "demo.rs"))
